@@ -120,6 +120,17 @@ def _cases(tier, rng):
         yield {"prog": prog, "storage": "file_array", "faults": "ENUM-KILLS"}
         if q % 2 == 0:  # memory storages persist at the end of a run: the kill points are the writes of that persist
             yield {"prog": prog, "storage": "dict", "faults": "ENUM-KILLS"}
+    # a two-dimensional mapped output stored in a memory backend, killed while the arrays are persisted (an array that
+    # is already persisted is read back element by element, by linear index, on resume)
+    si, sj = (2, 3) if rng.random() < 0.5 else (3, 2)
+    prog = {"funcs": [
+        {"name": "f0", "params": ["x", "y"], "outputs": ["a"], "internal": None,
+         "spec": {"inputs": [("x", ("i",)), ("y", ("j",))], "outputs": [("a", ("i", "j"))]}},
+        {"name": "f1", "params": ["a"], "outputs": ["c"], "internal": None,
+         "spec": {"inputs": [("a", ("i", "j"))], "outputs": [("c", ("i", "j"))]}}],
+        "inputs": {"x": {"shape": (si,), "kind": "ndarray"}, "y": {"shape": (sj,), "kind": "list"}},
+        "sizes": {"i": si, "j": sj}}
+    yield {"prog": prog, "storage": "dict", "faults": "ENUM-KILLS"}
     # quota: a function without a MapSpec whose (single) output is a list, stored before the failure of a later call
     want, tries = (4 if tier == "quick" else 40), 0
     while want and tries < 40000:
